@@ -122,7 +122,8 @@ func init() {
 		rule("R1R2-sql-spec", ruleSQLSpec(kindList("ReadPromises", "UpdatePromise"))).
 		rule("R6-object-provenance", ruleObjProvenance("Promise", "Promise.patch")).
 		rule("R6-cas", ruleCAS("ReadPromise", "CreatePromise", "CreatePromiseAndTask", "CompletePromise", "SearchPromises")).
-		rule("R14-coroutine-confinement", ruleCoroutineConfinement)
+		rule("R14-coroutine-confinement", ruleCoroutineConfinement).
+		rule("R14-clock-fresh", ruleClockFresh)
 
 	regProp("C05",
 		[]string{
@@ -157,7 +158,8 @@ func init() {
 		rule("R9-command-provenance", ruleCmdProvenance("UpdateTaskCommand", "CreateTaskCommand", "HeartbeatTasksCommand", "ReadTasksCommand")).
 		rule("R6-object-provenance", ruleObjProvenance("Task.patch")).
 		rule("R6-cas", ruleCAS("ClaimTask", "CompleteTask", "HeartbeatTasks")).
-		rule("R14-coroutine-confinement", ruleCoroutineConfinement)
+		rule("R14-coroutine-confinement", ruleCoroutineConfinement).
+		rule("R14-clock-fresh", ruleClockFresh)
 
 	regProp("C08",
 		[]string{
@@ -191,7 +193,8 @@ func init() {
 		rule("schema", ruleSchema(lockSchema)).
 		rule("R9-command-provenance", ruleCmdProvenance("AcquireLockCommand", "ReleaseLockCommand", "HeartbeatLocksCommand", "TimeoutLocksCommand")).
 		rule("R6-object-provenance", ruleObjProvenance("Lock")).
-		rule("R6-cas", ruleCAS("AcquireLock", "ReleaseLock", "HeartbeatLocks"))
+		rule("R6-cas", ruleCAS("AcquireLock", "ReleaseLock", "HeartbeatLocks")).
+		rule("R14-clock-fresh", ruleClockFresh)
 
 	regProp("C10",
 		[]string{
@@ -208,7 +211,8 @@ func init() {
 		rule("R17-tick", ruleTick).
 		rule("R5-groups", ruleWhoConstructs(groupOwners)).
 		rule("R6-object-provenance", ruleObjProvenance("Schedule")).
-		rule("R6-cas", ruleCAS("CreateSchedule", "DeleteSchedule"))
+		rule("R6-cas", ruleCAS("CreateSchedule", "DeleteSchedule")).
+		rule("R14-clock-fresh", ruleClockFresh)
 
 	regProp("C14",
 		[]string{
@@ -325,6 +329,7 @@ func init() {
 			"must-helpers: no Must-style helper is applied to run-time data",
 			"request-asserts: every util.Assert over request fields in a request coroutine is implied by what each front end (and the shared search helper, including its cursor path) validates before submitting",
 			"all SQL text is constant (no injection); every submit-able kind is registered; cursors are decoded only with signature verification",
+			"row-count asserts: every kernel assertion over the row counts the store reports (0 or 1 rows; created task rows == deleted callback rows; promise rows == task rows) is backed by the statement that produces the count: guard, row source, conflict clause and LIMIT of every asserted kind equal spec/sql.spec (R1/R2 restricted to these facets)",
 		},
 		[]string{"oversized bodies, stalls, library internals", "implicit (control-dependent) flows of client data", "assertions inside the store handlers beyond those fed by the checked request fields"}).
 		rule("R11-exhaustive", ruleExhaustive(nil)).
@@ -337,6 +342,7 @@ func init() {
 		rule("R12-use-before-err", ruleUseBeforeErrCheck).
 		rule("R12-unwrap-nil", ruleUnwrapNil).
 		rule("R3-sql-origin", ruleSQLOrigin).
+		rule("R12-row-count-asserts", ruleSQLRowCounts).
 		rule("R13-front-end-siblings", ruleFrontEndSiblings)
 }
 
